@@ -27,6 +27,7 @@ func main() {
 	repo := flag.String("repo", "/repo", "repository root")
 	rt := flag.String("rt", "/verif/rt", "verifrt sources")
 	out := flag.String("out", "", "output directory (overlay.json is written there)")
+	mapPoints := flag.String("mappoints", "", "comma separated package patterns whose plain map accesses become scheduling points (in addition to the sync rewriting)")
 	mapOrder := flag.String("maporder", "", "comma separated package patterns: instrument map iteration order in these programs and everything of the module they import (no sync/go rewriting)")
 	flag.Parse()
 	if *out == "" {
@@ -61,9 +62,19 @@ func main() {
 		os.WriteFile(filepath.Join(*out, "report.txt"), []byte(strings.Join(rep, "\n")+"\n"), 0o644)
 		return
 	}
+	if *mapPoints != "" {
+		rep, err := mapPointsOverlay(*repo, *out, strings.Split(*mapPoints, ","), replace)
+		if err != nil {
+			die(err)
+		}
+		report = append(report, rep...)
+	}
 	err = filepath.Walk(*repo, func(p string, info os.FileInfo, err error) error {
 		if err != nil {
 			return err
+		}
+		if _, done := replace[p]; done {
+			return nil
 		}
 		if info.IsDir() {
 			name := info.Name()
